@@ -245,6 +245,13 @@ def algebra(chk, thorough):
         sh = [W.var('s0'), 0.0, W.var('s2'), 0.0, 0.0, W.var('s5')]
         sub2 = po._substitute_affine(Pb[:SD + 1], Cn, np.array(sh), SD, psi, clmo, enc)
         cmp('_substitute_affine P(Cx + s), degree <= 3', R.from_blocks(sub2, clmo), R.psubs_linear(Pr, Cm, sh, SD), '10 matrix entries, 3 shifts')
+        # the same with COMPLEX coefficients in the polynomial (the conversions to complex normal-form coordinates feed such inputs)
+        Pcb, Pcr = R.make_sym_poly(tables, {1: [(0, 1, 0, 0, 0, 0)], 2: [(1, 0, 0, 1, 0, 0), (0, 0, 2, 0, 0, 0)], 3: [(1, 1, 0, 0, 0, 1)]}, 'pc', complex_coeffs=True)
+        Pcb += [pb._make_poly(d, psi) for d in range(len(Pcb), SD + 1)]
+        subc = po._substitute_linear(Pcb[:SD + 1], Cn, SD, psi, clmo, enc)
+        cmp('_substitute_linear P(Cx), complex coefficients', R.from_blocks(subc, clmo), R.psubs_linear(Pcr, Cm, None, SD), 'real and imaginary parts symbolic')
+        subc2 = po._substitute_affine(Pcb[:SD + 1], Cn, np.array(sh), SD, psi, clmo, enc)
+        cmp('_substitute_affine P(Cx + s), complex coefficients', R.from_blocks(subc2, clmo), R.psubs_linear(Pcr, Cm, sh, SD), 'real and imaginary parts symbolic')
     st = chk.absorb(ex)
     chk.assume('zero-skip guards and cleaning thresholds are taken on the generic side for symbolic coefficients (%d decisions); structurally absent monomials are concrete zeros and exercise the skipping side' % st['generic_nonzero_notes'])
     return tables
@@ -284,6 +291,17 @@ for i in range(3):
     for k, c in dmul(ddiff(todict(p, 2), i), ddiff(todict(q, 2), i + 3)).items(): pb[k] = pb.get(k, 0) + c
     for k, c in dmul(ddiff(todict(p, 2), i + 3), ddiff(todict(q, 2), i)).items(): pb[k] = pb.get(k, 0) - c
 if not close(todict(_poly_poisson(p, 2, q, 2, psi, clmo, enc), 2), pb): bad.append('_poly_poisson')
+# substitution: P_new(x) = P_old(C x) and P_old(C x + s) at random complex points, complex coefficients, complex C and s
+from hiten.algorithms.polynomial.operations import _substitute_affine, _polynomial_evaluate
+from numba.typed import List
+P = List()
+for d in range(4): P.append(rnd(d))
+C = rs.normal(size=(6, 6)) + 1j * rs.normal(size=(6, 6)); sft = 0.3 * (rs.normal(size=6) + 1j * rs.normal(size=6))
+for label, new, shift in (('_substitute_linear', _substitute_linear(P, C, 3, psi, clmo, enc), np.zeros(6, dtype=np.complex128)), ('_substitute_affine', _substitute_affine(P, C, sft, 3, psi, clmo, enc), sft)):
+    for _ in range(3):
+        x = rs.normal(size=6) + 1j * rs.normal(size=6)
+        a = complex(_polynomial_evaluate(new, x.astype(np.complex128), clmo)); b = complex(_polynomial_evaluate(P, (C @ x + shift).astype(np.complex128), clmo))
+        if abs(a - b) > 1e-8 * max(1.0, abs(b)): bad.append(label + ' (complex coefficients)'); break
 _verdict(bool(bad), failing=bad, obligation=%r)
 ''' % (name,)
 
